@@ -65,7 +65,7 @@ def lheading(state: StateBlock, startLine: int, endLine: int, silent: bool) -> b
         # Didn't find valid underline
         return False
 
-    content = state.getLines(startLine, nextLine, state.blkIndent, False).strip()
+    content = state.getLines(startLine, nextLine, state.blkIndent, False).strip(" \t")
 
     state.line = nextLine + 1
 
